@@ -13,6 +13,7 @@ import OutrankModel.Drv.C19
 import OutrankModel.Drv.C20
 import OutrankModel.Drv.C08
 import OutrankModel.Drv.C09
+import OutrankModel.Drv.C06
 /-!
 Line-protocol driver (DESIGN §2.2): one request per line on stdin, one reply per line on stdout.
 Adds only parsing and printing around the definitions the theorems are about.  Each property contributes one
@@ -34,7 +35,8 @@ def handlers : List (String × Handler) := [
   ("C19", C19Drv.drv),
   ("C20", C20Drv.drv),
   ("C08", C08Drv.drv),
-  ("C09", C09Drv.drv)
+  ("C09", C09Drv.drv),
+  ("C06", C06Drv.drv)
 ]
 
 abbrev DState := List (String × Val)
